@@ -1141,6 +1141,23 @@ func (e *vownerEnv) signersFor(rng *RNG, out *Out, pre func(op string), mt strin
 	plain := []string{"A", "B", "C", "D", "E"}
 	mode := rng.Intn(100)
 	var s []string
+	if target == "MR" && len(need) == 1 && contains(plain, need[0]) && rng.Chance(15) {
+		// the current owner could deposit into the restricted marker itself but does NOT sign: its authz
+		// grantee signs alone and has no deposit permission (the consent is there, the deposit right is not)
+		n, x := need[0], Pick(rng, plain)
+		if x != n && !e.hasAccess("MR", x, markertypes.Access_Deposit) {
+			keep := ""
+			if e.hasAccess("MR", n, markertypes.Access_Withdraw) {
+				keep = "withdraw|"
+			}
+			pre(fmt.Sprintf("access marker=MR addr=%s perms=%sdeposit", n, keep))
+			if len(e.granteesOf(n, mt)) == 0 || !contains(e.granteesOf(n, mt), x) {
+				pre(fmt.Sprintf("grant granter=%s grantee=%s mt=%s count=%d", n, x, mt, Pick(rng, []int{0, 1, 2})))
+			}
+			out.Count("signers:grantee-of-depositor")
+			return x
+		}
+	}
 	switch {
 	case mode < 58: // what the code asks for, through any of the routes
 		for _, n := range need {
